@@ -97,7 +97,7 @@ func cloneStmt(s Stmt) Stmt {
 	case *Panic:
 		return &Panic{s.Msg}
 	case *Append:
-		return &Append{CloneExpr(s.Arr), CloneExpr(s.Val)}
+		return &Append{Arr: CloneExpr(s.Arr), Val: CloneExpr(s.Val), Ref: s.Ref}
 	case *Raw:
 		return &Raw{s.Text}
 	}
